@@ -80,3 +80,18 @@ CHECKS["C12"] = {
         {"pkg": MUX, "run": "^TestVerif_C12_Inactivity$", "checks": {"quick": 1500, "thorough": 150000}, "shards": {"thorough": 16}, "timeout": {"quick": 300}},
     ],
 }
+
+CHECKS["C13"] = {
+    "level": "exploration",
+    "technique": "rapid-generated Write/ReadFrom/Close/reset sequences (synctest bubble) plus generated high-contention workloads with real goroutines; oracle = wire tap decoded by the independent reference codec (uniqueness, gap-freedom, write order, closing frame position); thorough tier repeats the stress under -race",
+    "level_text": "Every message the sender put on the wire is decoded with the session key by the reference codec; per (direction, stream) the numbers must be pairwise distinct, 0..n-1 when no send failed, payloads in number order must reproduce each writer's bytes with every Write's frames contiguous, and the closing frame must be numbered after all writes completed before Close. Interleavings are explored by sequential generated histories and by 2..16 goroutines hammering one stream on all cores.",
+    "level_note": "Concurrent schedules are sampled by contention (plus the race detector in the thorough tier), not enumerated; a race window that needs a specific nanosecond interleaving may be missed.",
+    "rule": "Scenarios: rapid-drawn <=50 ops (write incl. multi-frame, readfrom chunk scripts, close, deliver, reset) over 1..4 streams; non-trivial = >=3 frames on the wire. Stress: 2..16 concurrent writers (Write and ReadFrom) x 20..300 writes each on one stream, optional racing Close, 1..16 concurrent OpenStream; non-trivial = >=2 goroutines on one stream. distinct = distinct scenarios.",
+    "assumptions": ["reference codec is faithful", "sink connections accept every write"],
+    "jobs": [
+        {"pkg": MUX, "run": "^TestVerif_C13_Scenarios$", "checks": {"quick": 1500, "thorough": 150000}, "shards": {"thorough": 16}, "timeout": {"quick": 300}},
+        {"pkg": MUX, "run": "^TestVerif_C13_Stress$", "checks": {"quick": 60, "thorough": 3000}, "shards": {"thorough": 4}, "timeout": {"quick": 300}},
+        {"pkg": MUX, "run": "^TestVerif_C13_OpenIDs$", "checks": {"quick": 150, "thorough": 5000}, "timeout": {"quick": 300}},
+        {"pkg": MUX, "run": "^TestVerif_C13_Stress$", "checks": {"thorough": 300}, "race": True, "tiers": ["thorough"], "env": {"VERIF_RACE": "1"}},
+    ],
+}
